@@ -189,6 +189,17 @@ def check(run: Run) -> None:
     if stores_:
         v = strip_sites(fr.term_of(stores_[0].value))
         ok_v = v[0] == "app" and len(v[2]) == 3 and v[2][1] == ("param", rf.pos_params[0]) and v[2][2] == ("param", rf.pos_params[1])
+        if not ok_v and v[0] == "app" and len(v) > 3 and v[3] and v[1][0] == "global":
+            # fields given by name: put them in the order the record declares
+            decl = rf.module.assigns.get(v[1][1].split(".")[-1])
+            order_ = None
+            if isinstance(decl, ast.Call) and (ast.unparse(decl.func).split(".")[-1] in ("NamedTuple", "namedtuple")) and len(decl.args) == 2 and isinstance(decl.args[1], (ast.List, ast.Tuple)):
+                order_ = [e_.elts[0].value if isinstance(e_, ast.Tuple) and e_.elts and isinstance(e_.elts[0], ast.Constant) else (e_.value if isinstance(e_, ast.Constant) else None) for e_ in decl.args[1].elts]
+            if order_ and None not in order_ and len(order_) == 3:
+                byname = dict(zip(order_, v[2]))
+                if not (set(dict(v[3])) & set(byname)) and set(dict(v[3])) | set(byname) == set(order_):
+                    byname.update(dict(v[3]))
+                    ok_v = byname[order_[1]] == ("param", rf.pos_params[0]) and byname[order_[2]] == ("param", rf.pos_params[1])
         if not ok_v and v[0] == "new" and isinstance(v[1], str) and v[1].endswith("_FuncAdlFunction"):
             # the record written in class form: the same three fields, by name
             d_ = dict(v[2])
